@@ -345,7 +345,7 @@ func itemAlphabet(format string, reduced bool) []Item {
 		if format == "jsonline" {
 			bodies = bodyAlphaJSON
 		}
-		hs := [][]KV{nil, {{"A", "1"}}, {{"A", "1"}, {"X-b", "v w"}}}
+		hs := [][]KV{nil, {{"A", "1"}}, {{"A", "1"}, {"X-b", "v w"}}, {{"A", ""}}} // the last: a header present with an empty value
 		hosts := []string{"", "h.example"}
 		if reduced {
 			out = []Item{
